@@ -49,7 +49,7 @@ func bytesField(s string) string {
 }
 
 func checkC19(ctx *Ctx) {
-	ctx.Res.Rule = "combine: all stream-length tuples 0..3 for 1-4 ports x key orders (all permutations up to 3 ports) through the real function vs the Lean model; FileCombinator / ParamCombinator / IPSelectorSync end to end with independent upstream sources, stream lengths 0..B+3 under SCIPIPE_BUFSIZE in {1,2,3}, recorders downstream; FileSplitter over file length x lines-per-split grids (exact multiples, empty file, unterminated last line, CRLF); Concatenator; FileSource / ParamSource / FileToParamsReader / CommandToParams / FileGlobber against independent oracles and the Lean scanLines model; non-trivial = at least two items somewhere; distinct by case."
+	ctx.Res.Rule = "combine: all stream-length tuples 0..3 for 1-4 ports x key orders (all permutations up to 3 ports) through the real function vs the Lean model; FileCombinator / ParamCombinator / IPSelectorSync end to end with independent upstream sources, stream lengths 0..B+3 under SCIPIPE_BUFSIZE in {1,2,3}, recorders downstream; FileSplitter over file length x lines-per-split grids (exact multiples, empty file, unterminated last line, CRLF); Concatenator, also with GroupByTag over streams mixing tagged and untagged files (real outputs vs the Lean loop model); FileSource / ParamSource / FileToParamsReader / CommandToParams / FileGlobber against independent oracles and the Lean scanLines model; non-trivial = at least two items somewhere; distinct by case."
 	w := &Worker{}
 	defer w.Close()
 	r := NewRng(ctx.Seed)
@@ -494,6 +494,36 @@ func concatGroups(ctx *Ctx, groups []string) {
 	if rr.Exit != 0 {
 		ctx.Res.Violate(Violation{What: fmt.Sprintf("Concatenator with GroupByTag exited %d: %s", rr.Exit, firstLine(rr.Stderr)), Class: "c19.concat-failed", Witness: groups})
 		return
+	}
+	// the Lean model of the loop (Comp.concatGrouped; c19_concat_grouped is its theorem)
+	ids := map[string]int{}
+	items := []string{}
+	for i, g := range groups {
+		tag := ""
+		if g != "" {
+			if ids[g] == 0 {
+				ids[g] = len(ids) + 1
+			}
+			tag = fmt.Sprint(ids[g])
+		}
+		items = append(items, tag+RS+bytesField(pre[fmt.Sprintf("g%d.txt", i)]))
+	}
+	mparts := strings.Split(ctx.Drv.Ask("concatg", strings.Join(items, US)), US)
+	model := map[string]string{"all.out": mparts[0]}
+	for _, gp := range mparts[1:] {
+		if f := strings.SplitN(gp, RS, 2); len(f) == 2 {
+			for g, id := range ids {
+				if fmt.Sprint(id) == f[0] {
+					model["all.out.grp_"+g] = f[1]
+				}
+			}
+		}
+	}
+	for out := range want {
+		got, _ := readFile(rr.Dir, out)
+		if model[out] != bytesField(got) {
+			ctx.Res.Disagree(Violation{What: fmt.Sprintf("Concatenator (GroupByTag) output %s: real bytes %q, model bytes %s", out, got, model[out]), Class: "c19.concat", Witness: groups})
+		}
 	}
 	for out, w := range want {
 		got, _ := readFile(rr.Dir, out)
